@@ -26,7 +26,7 @@ func deepNest(n int, open, close string) string {
 
 func init() {
 	register("C19", func(c *engine.Ctx) {
-		c.Rule = "every root type of random programs (all features; half of them with --extra-imports so that the YAML methods exist too) x {valid, single-fault and mutated documents, wrong shapes (null, scalars, arrays, deep nesting, huge numbers, long strings), malformed byte strings} x a prior destination value obtained by decoding a valid document first; plus generated methods on types that are not the root struct (map-typed anyOf branches, named constrained strings, enums, a nested struct), decoded into directly with documents that fail late (an early map entry is fine, a later one is not). Each call runs under recover(); after a failed call the destination must re-marshal to exactly what it was. Distinct = distinct (wire, outcome, document class)."
+		c.Rule = "every root type of random programs (all features; half of them with --extra-imports so that the YAML methods exist too) x {valid, single-fault and mutated documents, wrong shapes (null, scalars, arrays, deep nesting, huge numbers, long strings), malformed byte strings} x a prior destination value obtained by decoding a valid document first; plus generated methods on types that are not the root struct (map-typed anyOf branches, named constrained strings, enums, a nested struct), decoded into directly with documents that fail late (an early map entry is fine, a later one is not); plus format-typed strings (time, date, date-time, ipv4, ipv6): every prefix, single-character deletion and substitution of valid texts, at a property and inside a nested required object. Each call runs under recover(); after a failed call the destination must re-marshal to exactly what it was. Distinct = distinct (wire, outcome, document class)."
 		c.Proofs([]string{"GJS.Props.C19"}, []string{
 			"GJS.Props.C19.error_keeps_destination", "GJS.Props.C19.method_all_or_nothing", "GJS.Props.C19.result_independent_of_destination",
 			"GJS.Props.C19.numeric_nil_guard", "GJS.Props.C19.string_nil_guard", "GJS.Props.C19.array_nil_guard", "GJS.Props.C19.null_nil_guard",
@@ -89,6 +89,35 @@ func init() {
 			{scalars, "Name", `"keep"`, []string{`"abc"`, `"a"`, `"abcdefgh"`, `5`, `{}`}},
 			{scalars, "Kind", `"a"`, []string{`"b"`, `"c"`, `7`, `[]`}},
 			{scalars, "Endpoint", `{"host":"keep","port":9}`, []string{`{"host":"h"}`, `{"port":1}`, `{"host":"h","port":0}`, `{"host":"","port":2}`, `{"host":"h","port":"x"}`}},
+		}
+		// format-typed strings (the runtime helper types of pkg/types and netip / time): every prefix, every
+		// single-character deletion and a set of single-character substitutions of a valid text per format
+		fmtValid := map[string][]string{"time": {"23:59:60", "09:00:00"}, "date": {"2024-02-29"}, "date-time": {"2024-12-24T09:00:00Z", "2024-12-24T09:00:00+01:00"}, "ipv4": {"192.168.1.1"}, "ipv6": {"2001:db8::1"}}
+		for _, fname := range core.SortedKeys(fmtValid) {
+			seen := map[string]bool{}
+			var docs []string
+			add := func(t string) {
+				if !seen[t] {
+					seen[t] = true
+					docs = append(docs, string(core.MustJSON(M{"n": 1, "t": t})), string(core.MustJSON(M{"n": 1, "o": M{"t": t}})))
+				}
+			}
+			for _, base := range fmtValid[fname] {
+				for i := 0; i <= len(base); i++ {
+					add(base[:i])
+				}
+				for i := 0; i < len(base); i++ {
+					add(base[:i] + base[i+1:])
+					for _, ch := range []string{"6", "0", ":", "Z", "+", "-", ".", "x", " "} {
+						add(base[:i] + ch + base[i+1:])
+					}
+				}
+				add(base + "Z")
+				add(base + "60")
+				add(" " + base)
+			}
+			fs := M{"type": "object", "properties": M{"t": M{"type": "string", "format": fname}, "n": M{"type": "integer", "minimum": 1}, "o": M{"type": "object", "properties": M{"t": M{"type": "string", "format": fname}}, "required": []any{"t"}}}, "required": []any{"n"}}
+			subs = append(subs, subType{fs, "Root", `{"n":1}`, docs})
 		}
 		for _, st := range subs {
 			for _, yamlToo := range []bool{false, true} {
